@@ -16,8 +16,8 @@ ID = "C12"
 CASES = {"quick": 4000, "thorough": 50000}
 FLOOR = {"quick": 3500, "thorough": 45000}
 FLOOR_COUNTERS = {
-    "quick": {"normalizer_fits": 1800, "sparse_fits": 1800, "test_kernels_judged": 3500, "weighted_fits": 2000},
-    "thorough": {"normalizer_fits": 22000, "sparse_fits": 22000, "test_kernels_judged": 45000, "weighted_fits": 25000},
+    "quick": {"tiny_magnitude_kernels": 250, "normalizer_fits": 1800, "sparse_fits": 1800, "test_kernels_judged": 3500, "weighted_fits": 2000},
+    "thorough": {"tiny_magnitude_kernels": 3000, "normalizer_fits": 22000, "sparse_fits": 22000, "test_kernels_judged": 45000, "weighted_fits": 25000},
 }
 RULE = (
     "case = explicit features F (n 2-30, f 1-8, offset so that centring matters), test features (1-40 rows), weights "
@@ -39,12 +39,15 @@ def gen(rng, tier, index):
     off = rng.normal(size=f) * float(gens.pick(rng, (0.0, 1.0, 10.0)))
     F = rng.normal(size=(n, f)) * 10.0 ** rng.uniform(-1, 1, size=f) + off
     Ft = rng.normal(size=(nt, f)) * 10.0 ** rng.uniform(-1, 1, size=f) + off
+    if rng.random() < 0.3:  # features in small / large units (exact powers of two)
+        u = float(2.0 ** int(rng.integers(-26, 12)))
+        F, Ft, off = F * u, Ft * u, off * u
     wk = gens.pick(rng, ("none", "uniform", "random", "integer"))
     M = int(rng.integers(1, max(2, min(n, 12)) + 1))
     if rng.random() < 0.5:
         Fa = F[rng.permutation(n)[: min(M, n)]].copy()
     else:
-        Fa = rng.normal(size=(M, f)) + off
+        Fa = rng.normal(size=(M, f)) * float(np.abs(F - off).std() or 1.0) + off
     return {
         "F": F,
         "Ft": Ft,
@@ -143,6 +146,8 @@ def _run_sparse(case, j):
 
 
 def run(case, j):
+    if float(np.abs(case["F"]).max()) < 1e-4:
+        j.note("tiny_magnitude_kernels")
     j.tag("sparse" if case["sparse"] else "normalizer", f"center={case['with_center']},trace={case['with_trace']}", f"weights:{case['wkind']}")
     if case["w"] is not None:
         j.note("weighted_fits")
